@@ -10,10 +10,16 @@
 // from several processes released on a barrier.
 //
 // Oracle: set membership — two uploads (or two generated keys) with the same
-// object key is the refuting event.
+// object key is the refuting event.  Every upload also carries a payload with
+// a unique id and the fake backends log which payload was written under which
+// key: a key holding another upload's data, a returned URL whose key was never
+// written, or one upload's data under two keys refute "no externalized payload
+// is ever overwritten by another call's data" even when the key GENERATOR is
+// fine (e.g. a request struct shared between concurrent calls).
 package main
 
 import (
+	"bytes"
 	"crypto/sha256"
 	"encoding/binary"
 	"encoding/hex"
@@ -96,17 +102,34 @@ func dupeStrings(keys []string) (int, []string) {
 type fakeS3 struct {
 	mu   sync.Mutex
 	keys []string
+	ids  []string // payload id carried by the body of keys[i] ("" = none recognisable)
 	srv  *httptest.Server
 }
 
+// payloadID extracts the upload id every harness payload carries
+// ("...|id=<n>|END"); "" when the body holds none (or a mangled one).
+func payloadID(body []byte) string {
+	i := bytes.Index(body, []byte("|id="))
+	if i < 0 {
+		return ""
+	}
+	rest := body[i+4:]
+	j := bytes.Index(rest, []byte("|END"))
+	if j < 0 {
+		return ""
+	}
+	return string(rest[:j])
+}
+
 func (f *fakeS3) ServeHTTP(w http.ResponseWriter, req *http.Request) {
-	_, _ = io.Copy(io.Discard, req.Body)
+	body, _ := io.ReadAll(req.Body)
 	if req.Method == http.MethodPut {
 		// path style: /bucket/key...
 		p := strings.TrimPrefix(req.URL.Path, "/")
 		if i := strings.IndexByte(p, '/'); i >= 0 {
 			f.mu.Lock()
 			f.keys = append(f.keys, p[i+1:])
+			f.ids = append(f.ids, payloadID(body))
 			f.mu.Unlock()
 		}
 		w.Header().Set("ETag", `"d41d8cd98f00b204e9800998ecf8427e"`)
@@ -116,17 +139,18 @@ func (f *fakeS3) ServeHTTP(w http.ResponseWriter, req *http.Request) {
 	w.WriteHeader(http.StatusOK)
 }
 
-func (f *fakeS3) take() []string {
+func (f *fakeS3) take() ([]string, []string) {
 	f.mu.Lock()
 	defer f.mu.Unlock()
-	k := f.keys
-	f.keys = nil
-	return k
+	k, ids := f.keys, f.ids
+	f.keys, f.ids = nil, nil
+	return k, ids
 }
 
 type fakeGCS struct {
 	mu   sync.Mutex
 	keys []string
+	ids  []string
 	srv  *httptest.Server
 }
 
@@ -146,6 +170,7 @@ func (f *fakeGCS) ServeHTTP(w http.ResponseWriter, req *http.Request) {
 		}
 		f.mu.Lock()
 		f.keys = append(f.keys, name)
+		f.ids = append(f.ids, payloadID(body))
 		f.mu.Unlock()
 		w.Header().Set("Content-Type", "application/json")
 		_ = json.NewEncoder(w).Encode(map[string]any{"kind": "storage#object", "bucket": "verif-bucket", "name": name,
@@ -157,12 +182,12 @@ func (f *fakeGCS) ServeHTTP(w http.ResponseWriter, req *http.Request) {
 	_, _ = w.Write([]byte(`{"error":{"code":404,"message":"not found"}}`))
 }
 
-func (f *fakeGCS) take() []string {
+func (f *fakeGCS) take() ([]string, []string) {
 	f.mu.Lock()
 	defer f.mu.Unlock()
-	k := f.keys
-	f.keys = nil
-	return k
+	k, ids := f.keys, f.ids
+	f.keys, f.ids = nil, nil
+	return k, ids
 }
 
 // ---------------------------------------------------------------------------
@@ -171,34 +196,66 @@ type uploader interface {
 	Upload(data []byte, schema *arrow.Schema, contentEncoding string) (string, error)
 }
 
-// uploadArm drives `total` uploads through st: first `seq` sequentially in a
-// tight loop, then the rest from `goroutines` goroutines released on a barrier
-// in rounds. Returns errors seen (GCS: the offline SignedURL step fails after
-// the object insert — expected).
-func uploadArm(st uploader, seq, goroutines, perG int) (errs map[string]int) {
+// upRes is what one Upload call returned.
+type upRes struct {
+	ID    string // payload id carried by the body
+	Phase string // sequential | concurrent
+	URL   string
+	Err   string
+	Panic string
+}
+
+// uploadArm drives uploads through st: first `seq` sequentially in a
+// tight loop, then `perG` rounds in which `goroutines` goroutines are released
+// together and call Upload once each. Every upload carries a payload with a
+// unique id, so the backend log says whose data ended up under which key.
+// Returns errors seen (GCS: the offline SignedURL step fails after the object
+// insert — expected) and one upRes per call. A panic inside Upload is
+// recovered and recorded (the run goes on: the backend log decides).
+func uploadArm(backend string, st uploader, seq, goroutines, perG int) (errs map[string]int, res []upRes) {
 	errs = map[string]int{}
 	var mu sync.Mutex
-	note := func(err error) {
-		if err == nil {
+	note := func(u upRes) {
+		mu.Lock()
+		defer mu.Unlock()
+		res = append(res, u)
+		s := u.Err
+		if u.Panic != "" {
+			s = "panic: " + u.Panic
+		}
+		if s == "" {
 			return
 		}
-		s := err.Error()
 		if len(s) > 60 {
 			s = s[:60]
 		}
-		mu.Lock()
 		errs[s]++
-		mu.Unlock()
 	}
 	schema := arrow.NewSchema([]arrow.Field{{Name: "x", Type: arrow.PrimitiveTypes.Int64}}, nil)
-	payload := []byte("ARROW-IPC-PLACEHOLDER")
+	var next atomic.Int64
+	one := func(phase string, enc string) {
+		id := fmt.Sprintf("%s-%d", backend, next.Add(1))
+		u := upRes{ID: id, Phase: phase}
+		defer func() {
+			if p := recover(); p != nil {
+				u.Panic = fmt.Sprint(p)
+			}
+			note(u)
+		}()
+		payload := []byte("ARROW-IPC-PLACEHOLDER|id=" + id + "|END")
+		url, err := st.Upload(payload, schema, enc)
+		u.URL = url
+		if err != nil {
+			u.Err = err.Error()
+		}
+	}
 	for i := 0; i < seq; i++ {
-		_, err := st.Upload(payload, schema, []string{"", "zstd"}[i%2])
-		note(err)
+		one("sequential", []string{"", "zstd"}[i%2])
 	}
 	// concurrent phase: perG rounds; in each round all goroutines are released
 	// together and call Upload once (the key is generated at the start of Upload)
 	for round := 0; round < perG; round++ {
+		roundStart := time.Now()
 		// Spin barrier rather than a channel close: waking parked goroutines
 		// spreads them over many microseconds, spinning ones leave within a
 		// few hundred nanoseconds of each other (the interesting window for a
@@ -216,15 +273,117 @@ func uploadArm(st uploader, seq, goroutines, perG int) (errs map[string]int) {
 						runtime.Gosched()
 					}
 				}
-				_, err := st.Upload(payload, schema, []string{"", "zstd"}[(g+round)%2])
-				note(err)
+				one("concurrent", []string{"", "zstd"}[(g+round)%2])
 			}(g)
 		}
 		ready.Wait()
 		start.Store(1)
 		wg.Wait()
+		// Workload limiter, not a verdict: a round normally takes milliseconds. When one takes
+		// seconds (requests failing inside the SDK), the remaining rounds are skipped and what
+		// was observed so far is judged; the "concurrent-uploads" class then stays unhit, so a
+		// run cut short without a violation is INCONCLUSIVE, never "held".
+		if time.Since(roundStart) > 5*time.Second {
+			mu.Lock()
+			errs[fmt.Sprintf("rounds cut short after round %d of %d (slow round)", round+1, perG)]++
+			mu.Unlock()
+			break
+		}
 	}
-	return errs
+	return errs, res
+}
+
+// judgePayloads is the conservation check over unique payload ids: every
+// object key holds the data of exactly one upload, no upload's data lands
+// under two keys, and (where Upload returns the object's URL) the URL an
+// upload was given names the key that holds ITS data and nobody else's.
+func judgePayloads(r *monx.Run, backend string, keys, ids []string, res []upRes) {
+	byKey := map[string][]string{}
+	byID := map[string][]string{}
+	unrecognised := 0
+	for i, k := range keys {
+		byKey[k] = append(byKey[k], ids[i])
+		if ids[i] == "" {
+			unrecognised++
+			continue
+		}
+		byID[ids[i]] = append(byID[ids[i]], k)
+	}
+	r.Count(backend+".bodies_without_payload_id", int64(unrecognised))
+	panics, okURL, misplaced, lost := 0, 0, 0, 0
+	var exMis, exLost []map[string]any
+	phaseOf := map[string]bool{}
+	for _, u := range res {
+		if u.Panic != "" {
+			panics++
+		}
+		if u.URL == "" || u.Err != "" || u.Panic != "" {
+			continue
+		}
+		// The URL is <endpoint>/<bucket>/<key>?<presign query>; find the key
+		// among the keys the backend saw by path containment.
+		okURL++
+		path := u.URL
+		if i := strings.IndexByte(path, '?'); i >= 0 {
+			path = path[:i]
+		}
+		if un, err := url.PathUnescape(path); err == nil {
+			path = un
+		}
+		var k string
+		if i := strings.Index(path, "/verif-bucket/"); i >= 0 {
+			k = path[i+len("/verif-bucket/"):]
+		}
+		held := byKey[k]
+		switch {
+		case len(held) == 0:
+			lost++
+			phaseOf[u.Phase] = true
+			if len(exLost) < 3 {
+				exLost = append(exLost, map[string]any{"upload": u.ID, "url_key": k, "keys_holding_this_upload": byID[u.ID]})
+			}
+		case len(held) != 1 || held[0] != u.ID:
+			misplaced++
+			phaseOf[u.Phase] = true
+			if len(exMis) < 3 {
+				exMis = append(exMis, map[string]any{"upload": u.ID, "url_key": k, "payloads_written_to_that_key": held, "keys_holding_this_upload": byID[u.ID]})
+			}
+		}
+	}
+	r.Count(backend+".uploads_panicked", int64(panics))
+	r.Count(backend+".uploads_with_url_checked", int64(okURL))
+	if okURL > 0 {
+		r.Class(backend + ":url-key-holds-own-payload-checked")
+	}
+	phase := "sequential"
+	if phaseOf["concurrent"] && !phaseOf["sequential"] {
+		phase = "concurrent"
+	}
+	if misplaced > 0 {
+		r.Violation(backend+":payload-overwritten:upload:"+phase, fmt.Sprintf("%d of %d successful uploads got a URL whose object key holds another upload's data (or more than one write)", misplaced, okURL),
+			map[string]any{"backend": backend, "uploads_checked": okURL, "uploads_whose_key_holds_foreign_data": misplaced, "examples": exMis})
+	}
+	if lost > 0 {
+		r.Violation(backend+":url-key-never-written:upload:"+phase, fmt.Sprintf("%d of %d successful uploads got a URL whose object key was never written at the backend", lost, okURL),
+			map[string]any{"backend": backend, "uploads_checked": okURL, "uploads_whose_key_was_never_written": lost, "examples": exLost})
+	}
+	// one upload's data under two keys (a request struct shared between calls
+	// can send one body twice): conservation, independent of URLs
+	twice := 0
+	var ex []map[string]any
+	for id, ks := range byID {
+		if len(ks) > 1 {
+			twice++
+			if len(ex) < 3 {
+				ex = append(ex, map[string]any{"upload": id, "keys": ks})
+			}
+		}
+	}
+	r.Count(backend+".payloads_written_more_than_once", int64(twice))
+	if twice > 0 {
+		r.Violation(backend+":payload-written-under-several-keys", fmt.Sprintf("%d uploads had their data written more than once at the backend (another call's key received it)", twice),
+			map[string]any{"backend": backend, "uploads_written_more_than_once": twice, "examples": ex})
+	}
 }
 
 // ---------------------------------------------------------------------------
@@ -333,7 +492,7 @@ func main() {
 	r := monx.Start("C33")
 	defer r.Finish()
 	r.SetRule("upload arms: N uploads per backend through the real Upload (a sequential tight loop, then G goroutines released on a barrier), keys read from the fake endpoint's request log; generator arms: the S3 key generator (verif export) in a tight loop, from G goroutines, and from P processes released on a wall-clock barrier; one evaluation = one key observed; distinct = distinct keys")
-	r.Require("s3:upload-observed", "gcs:upload-observed", "s3:concurrent-uploads", "gcs:concurrent-uploads", "s3:generator-sequential", "s3:generator-goroutines", "s3:generator-processes")
+	r.Require("s3:url-key-holds-own-payload-checked", "s3:upload-observed", "gcs:upload-observed", "s3:concurrent-uploads", "gcs:concurrent-uploads", "s3:generator-sequential", "s3:generator-goroutines", "s3:generator-processes")
 	r.Assume("the fake endpoints see the object key exactly as the SDKs put it on the wire (S3: path-style PUT path; GCS: name= of the JSON-API object insert)")
 	r.Assume("GCS SignedURL fails offline after the object insert; the key has been observed by then")
 	r.Assume("the cross-process barrier is a file created by the parent once every child has announced itself; no clock is involved")
@@ -343,6 +502,9 @@ func main() {
 		"AWS_ACCESS_KEY_ID": "AKIAVERIFVERIFVERIF", "AWS_SECRET_ACCESS_KEY": "verifverifverifverifverifverifverifverif",
 		"AWS_EC2_METADATA_DISABLED": "true", "AWS_REGION": "us-east-1", "AWS_CONFIG_FILE": "/dev/null", "AWS_SHARED_CREDENTIALS_FILE": "/dev/null",
 		"AWS_REQUEST_CHECKSUM_CALCULATION": "when_required", "GOOGLE_APPLICATION_CREDENTIALS": "",
+		// one attempt per PutObject: the fake endpoint never fails, so a retry can only follow a
+		// request the client itself mangled, and then it hides the mangling behind seconds of backoff
+		"AWS_MAX_ATTEMPTS": "1",
 		"NO_GCE_CHECK": "true",
 	} {
 		os.Setenv(k, v)
@@ -350,7 +512,12 @@ func main() {
 
 	// --- S3 uploads
 	fs3 := &fakeS3{}
-	fs3.srv = httptest.NewServer(fs3)
+	// The read timeout only matters when a client announces a body it then never sends (a body
+	// reader shared between two requests): without it that request and the server wait for each
+	// other forever and the run never reaches its verdict.
+	fs3.srv = httptest.NewUnstartedServer(fs3)
+	fs3.srv.Config.ReadTimeout = 2 * time.Second
+	fs3.srv.Start()
 	defer fs3.srv.Close()
 	s3st, err := vgis3.NewS3Storage("verif-bucket", vgis3.S3Config{Region: "us-east-1", EndpointURL: fs3.srv.URL, Prefix: "c33/"})
 	if err != nil {
@@ -360,8 +527,8 @@ func main() {
 	perG := r.N(50, 400) // rounds
 	seq := r.N(300, 4000)
 	t0 := time.Now()
-	s3errs := uploadArm(s3st, seq, G, perG)
-	s3keys := fs3.take()
+	s3errs, s3res := uploadArm("s3", s3st, seq, G, perG)
+	s3keys, s3ids := fs3.take()
 	r.Set("s3_upload_errors", s3errs)
 	r.Set("s3_upload_wall_s", time.Since(t0).Seconds())
 	if len(s3keys) > 0 {
@@ -372,10 +539,13 @@ func main() {
 	}
 	r.Count("s3.put_requests", int64(len(s3keys)))
 	judgeStrings(r, "s3", s3keys, seq)
+	judgePayloads(r, "s3", s3keys, s3ids, s3res)
 
 	// --- GCS uploads
 	fg := &fakeGCS{}
-	fg.srv = httptest.NewServer(fg)
+	fg.srv = httptest.NewUnstartedServer(fg)
+	fg.srv.Config.ReadTimeout = 5 * time.Second
+	fg.srv.Start()
 	defer fg.srv.Close()
 	u, _ := url.Parse(fg.srv.URL)
 	os.Setenv("STORAGE_EMULATOR_HOST", u.Host)
@@ -397,8 +567,8 @@ func main() {
 	// the GCS client is ~10x slower per upload (multipart insert + failing
 	// SignedURL); its key is a crypto/rand UUID, so fewer uploads suffice
 	seq, G, perG = r.N(100, 1000), r.N(16, 32), r.N(60, 300)
-	gerrs := uploadArm(gst, seq, G, perG)
-	gkeys := fg.take()
+	gerrs, gres := uploadArm("gcs", gst, seq, G, perG)
+	gkeys, gids := fg.take()
 	r.Set("gcs_upload_errors", gerrs)
 	r.Set("gcs_upload_wall_s", time.Since(t0).Seconds())
 	if len(gkeys) > 0 {
@@ -409,6 +579,7 @@ func main() {
 	}
 	r.Count("gcs.insert_requests", int64(len(gkeys)))
 	judgeStrings(r, "gcs", gkeys, seq)
+	judgePayloads(r, "gcs", gkeys, gids, gres)
 
 	// --- generator volume
 	judgeKeys := func(arm string, keys []key16, extra map[string]any) {
